@@ -414,6 +414,12 @@ class Sem:
         if isinstance(v, B):
             if value >= 0: return v if value != 0 else v.neg()
             return v if (-1 - value) == 0 else v.neg()
+        at = self._single_atom(v) if isinstance(v, Rat) else None
+        if at is not None and at[0] == 'fn' and at[1] == 'discr':
+            # discriminant of a two-variant enum (Option / Result): a boolean "is variant 1"
+            is1 = B('truthy', v)
+            if value in (0, 1): return is1 if value == 1 else is1.neg()
+            if (-1 - value) in (0, 1): return is1.neg() if (-1 - value) == 1 else is1
         if value >= 0: return eq(v, C(value))
         return ne(v, C(-1 - value))
 
